@@ -58,13 +58,16 @@ func (g *ogen) intExpr(d int) *onode {
 		}
 		return xs
 	}
-	switch g.r.Intn(34) {
+	switch g.r.Intn(35) {
 	case 30, 31:
 		// f(a, b, [c, d]...): leading arguments, then the spread operand, for a fixed-arity script function (k = parameters,
 		// the first kids up to the marker are the leading arguments)
 		np := 2 + g.r.Intn(5)
 		nl := 1 + g.r.Intn(2)
 		return &onode{kind: "leadspread", fn: fmt.Sprintf("f%d", np), k: int64(np), lead: nl, kids: ints(nl + g.r.Intn(np+1))}
+	case 34:
+		// a + chain whose first partial sum fails (number + list): the operands behind it are not evaluated
+		return &onode{kind: "addchainfail", kids: ints(3)}
 	case 33:
 		// an index expression whose container is not indexable (an integer, nil from a missing map entry): container, then
 		// the index operand, THEN the error
@@ -206,6 +209,8 @@ func (n *onode) src() string {
 		return n.fn + "(" + joinKids(n.kids[:n.lead]) + ", [" + joinKids(n.kids[n.lead:]) + "]...)"
 	case "inlist":
 		return "gv0(" + n.kids[0].src() + " in [" + joinKids(n.kids[1:]) + "])"
+	case "addchainfail":
+		return "gv0(" + n.kids[0].src() + " + [" + n.kids[1].src() + "] + " + n.kids[2].src() + ")"
 	case "badindex":
 		if n.k == 0 {
 			return "(" + n.kids[0].src() + ")[" + n.kids[1].src() + "]"
@@ -377,6 +382,9 @@ func (n *onode) ref(tr *[]string) (interface{}, bool) {
 			return nil, true
 		}
 		return vs[0], false
+	case "addchainfail":
+		evalAll(n.kids[:2])
+		return nil, true
 	case "badindex":
 		evalAll(n.kids)
 		return nil, true
@@ -482,7 +490,7 @@ func streamOrder(o *Out, r *rand.Rand, n int, thorough bool) {
 			d := 1 + r.Intn(3)
 			var stmt string
 			bad := false
-			switch r.Intn(11) {
+			switch r.Intn(12) {
 			case 8, 9: // typed map / slice literals: key_i then value_i, elements in order
 				ks := []*onode{g.intExpr(d), g.intExpr(d), g.intExpr(d), g.intExpr(d)}
 				if r.Intn(2) == 0 {
@@ -551,6 +559,23 @@ func streamOrder(o *Out, r *rand.Rand, n int, thorough bool) {
 						bad = true
 						break
 					}
+				}
+			case 11: // one right side for several targets: evaluated once, whatever it yields (a number, nil, an empty list)
+				e1 := g.intExpr(d)
+				switch r.Intn(4) {
+				case 0:
+					stmt = "ma, mb = " + e1.src() + "\nprobe(ma)"
+				case 1:
+					stmt = "var mc, md, me = " + e1.src() + "\nprobe(mc)"
+				case 2:
+					stmt = "ma, mb = (nil ?? " + e1.src() + ")\nprobe(ma)"
+				default:
+					stmt = "var mc, md = id(nil ?? " + e1.src() + ")\nprobe(mc)"
+				}
+				v, bd := e1.ref(&want)
+				bad = bd
+				if !bad {
+					want = append(want, vals.Encode(v))
 				}
 			case 10: // defer of a Go function with typed parameters: a value that does not convert fails AT THE DEFER STATEMENT,
 				// the operands after it and the rest of the body do not run
